@@ -267,7 +267,7 @@ func Main(args []string) int {
 			seed = uint64(v)
 		}
 	}
-	ctx := &Ctx{Prop: p, Tier: tier, Seed: seed, Repo: RepoDir(), VerifDir: VerifDir(), Rand: NewRand(seed*0x9e3779b97f4a7c15 + 0x1234567), Escalate: 1}
+	ctx := &Ctx{Prop: p, Tier: tier, Seed: seed, Repo: RepoDir(), VerifDir: VerifDir(), Rand: NewRand(NewRand(seed).Uint64() ^ 0xd1342543de82ef95), Escalate: 1}
 	if replay != "" {
 		return doReplay(ctx, replay)
 	}
